@@ -646,6 +646,117 @@ fn string_arith() -> usize {
     ])
 }
 
+struct Prog { program: vrl::compiler::Program }
+impl Prog {
+    fn new(src: &str) -> Self {
+        let fns = vrl::stdlib::all();
+        Prog { program: compile(src, &fns).unwrap_or_else(|e| panic!("witness program does not compile: {src}: {e:?}")).program }
+    }
+    fn run(&self, event: Value) -> Result<Value, String> {
+        let mut target = TargetValue { value: event, metadata: Value::Object(BTreeMap::new()), secrets: Secrets::default() };
+        let mut rt = Runtime::default();
+        match rt.resolve(&mut target, &self.program, &TimeZone::default()) {
+            Ok(v) => Ok(v),
+            Err(Terminate::Abort(e)) => Err(format!("ABORT:{e}")),
+            Err(Terminate::Error(e)) => Err(format!("ERROR:{e}")),
+        }
+    }
+}
+
+fn obj(pairs: Vec<(&str, Value)>) -> Value {
+    Value::Object(pairs.into_iter().map(|(k, v)| (k.into(), v)).collect())
+}
+
+fn ref_merge(a: &Value, b: &Value, deep: bool) -> Value {
+    let (Value::Object(a), Value::Object(b)) = (a, b) else { unreachable!() };
+    let mut r = a.clone();
+    for (k, vb) in b {
+        let merged = match (deep, a.get(k), vb) {
+            (true, Some(va @ Value::Object(_)), Value::Object(_)) => ref_merge(va, vb, deep),
+            _ => vb.clone(),
+        };
+        r.insert(k.clone(), merged);
+    }
+    Value::Object(r)
+}
+
+/// C28 stand-in / witness: slice against positional indexing, length against the container,
+/// merge against the reference law, on small exhaustive domains through the real stdlib functions.
+fn collection_laws() -> usize {
+    let mut bad = 0;
+    let slice3 = Prog::new("slice!(.a, int!(.s), int!(.e))");
+    let slice2 = Prog::new("slice!(.a, int!(.s))");
+    let length = Prog::new("length!(.a)");
+    let mut inputs: Vec<Value> = vec![];
+    for n in 0..=4i64 {
+        inputs.push(Value::Array((0..n).map(|i| Value::Integer(10 + i)).collect()));
+        inputs.push(Value::from((0..n).map(|i| (b'a' + i as u8) as char).collect::<String>()));
+    }
+    for a in &inputs {
+        let len = match a { Value::Array(v) => v.len() as i64, Value::Bytes(b) => b.len() as i64, _ => 0 };
+        let got = length.run(obj(vec![("a", a.clone())]));
+        if got != Ok(Value::Integer(len)) {
+            bad += 1;
+            fail("collection_laws", &format!("length({a})"), &len.to_string(), &format!("{got:?}"));
+        }
+        for s in -6..=6i64 {
+            for e in (-6..=6i64).map(Some).chain([None]) {
+                let ns = if s < 0 { s + len } else { s };
+                let ne = match e { Some(e) if e < 0 => e + len, Some(e) => e, None => len };
+                let want: Option<Value> = if ns < 0 || ns > len || ne < ns { None } else {
+                    let hi = ne.min(len) as usize;
+                    Some(match a {
+                        Value::Array(v) => Value::Array(v[ns as usize..hi].to_vec()),
+                        Value::Bytes(b) => Value::Bytes(b.slice(ns as usize..hi)),
+                        _ => unreachable!(),
+                    })
+                };
+                let got = match e {
+                    Some(e) => slice3.run(obj(vec![("a", a.clone()), ("s", s.into()), ("e", e.into())])),
+                    None => slice2.run(obj(vec![("a", a.clone()), ("s", s.into())])),
+                };
+                let ok = match (&got, &want) { (Ok(g), Some(w)) => g == w, (Err(_), None) => true, _ => false };
+                if !ok {
+                    bad += 1;
+                    fail("collection_laws", &format!("slice({a}, {s}, {e:?})"), &format!("{want:?}"), &format!("{got:?}"));
+                }
+            }
+        }
+    }
+    let leaves = || vec![
+        Value::Integer(1), Value::from("x"), obj(vec![]), obj(vec![("a", Value::Integer(7))]),
+        obj(vec![("a", obj(vec![("b", Value::Integer(2))]))]), obj(vec![("b", Value::Integer(3))]),
+        obj(vec![("a", obj(vec![("c", Value::Integer(4))])), ("b", Value::from("y"))]),
+    ];
+    let mut objects: Vec<Value> = vec![obj(vec![])];
+    for va in leaves() {
+        objects.push(obj(vec![("a", va.clone())]));
+        for vb in leaves() {
+            objects.push(obj(vec![("a", va.clone()), ("b", vb)]));
+        }
+    }
+    let merge = Prog::new("merge(object!(.a), object!(.b), deep: bool!(.d))");
+    for a in &objects {
+        let got = length.run(obj(vec![("a", a.clone())]));
+        let Value::Object(m) = a else { unreachable!() };
+        if got != Ok(Value::Integer(m.len() as i64)) {
+            bad += 1;
+            fail("collection_laws", &format!("length({a})"), &m.len().to_string(), &format!("{got:?}"));
+        }
+        for b in &objects {
+            for deep in [false, true] {
+                let want = ref_merge(a, b, deep);
+                let got = merge.run(obj(vec![("a", a.clone()), ("b", b.clone()), ("d", deep.into())]));
+                if got.as_ref() != Ok(&want) {
+                    bad += 1;
+                    if bad < 20 { fail("collection_laws", &format!("merge({a}, {b}, deep: {deep})"), &want.to_string(), &format!("{got:?}")); }
+                }
+            }
+        }
+    }
+    bad
+}
+
 fn main() {
     let unit = std::env::args().nth(1).unwrap_or_default();
     let bad = match unit.as_str() {
@@ -660,6 +771,7 @@ fn main() {
         "reported_paths" => reported_paths(),
         "op_typing" => op_typing(),
         "string_arith" => string_arith(),
+        "collection_laws" => collection_laws(),
         _ => {
             eprintln!("unknown witness unit {unit}");
             std::process::exit(2);
